@@ -47,6 +47,11 @@ func MarshalResource(r Resource, prepath string, fields []string, relData map[st
 					attrs[attr.Name] = []byte{}
 				}
 
+				// Neither is a non-nil pointer to a nil byte slice.
+				if p, ok := attrs[attr.Name].(*[]byte); ok && p != nil && *p == nil {
+					attrs[attr.Name] = []byte{}
+				}
+
 				break
 			}
 		}
